@@ -273,7 +273,7 @@ fn build_partial_eq_expr(
     if let Some(by) = &cmp.partial_ord.by {
         return Ok(quote! {
             {
-                fn #fn_ident(this: &#ty, other: &#ty, partial_cmp: impl Fn(&#ty, &#ty) -> ::core::option::Option<::core::cmp::Ordering>) -> bool {
+                fn #fn_ident(this: &#ty, other: &#ty, partial_cmp: impl ::core::ops::Fn(&#ty, &#ty) -> ::core::option::Option<::core::cmp::Ordering>) -> bool {
                     partial_cmp(this, other) == ::core::option::Option::Some(::core::cmp::Ordering::Equal)
                 }
                 #fn_ident(&#this, &#other, #by)
@@ -514,7 +514,7 @@ fn build_partial_ord_expr(
                 fn #fn_ident(
                     this: &#ty,
                     other: &#ty,
-                    partial_cmp: impl Fn(&#ty, &#ty) -> ::core::option::Option<::core::cmp::Ordering>)
+                    partial_cmp: impl ::core::ops::Fn(&#ty, &#ty) -> ::core::option::Option<::core::cmp::Ordering>)
                  -> ::core::option::Option<::core::cmp::Ordering> {
                     partial_cmp(this, other)
                 }
@@ -533,7 +533,7 @@ fn build_partial_ord_expr(
                 fn #fn_ident(
                     this: &#ty,
                     other: &#ty,
-                    cmp: impl Fn(&#ty, &#ty) -> ::core::cmp::Ordering)
+                    cmp: impl ::core::ops::Fn(&#ty, &#ty) -> ::core::cmp::Ordering)
                  -> ::core::option::Option<::core::cmp::Ordering> {
                     ::core::option::Option::Some(cmp(this, other))
                 }
@@ -654,7 +654,7 @@ fn build_ord_expr(
                 fn #fn_ident(
                     this: &#ty,
                     other: &#ty,
-                    cmp: impl Fn(&#ty, &#ty) -> ::core::cmp::Ordering)
+                    cmp: impl ::core::ops::Fn(&#ty, &#ty) -> ::core::cmp::Ordering)
                  -> ::core::cmp::Ordering {
                     cmp(this, other)
                 }
@@ -722,13 +722,13 @@ fn build_hash_body(
             quote! {
                 match self {
                     #(#arms)*
-                    _ => unreachable!(),
+                    _ => ::core::unreachable!(),
                 }
             }
         }
     };
     Ok(quote! {
-        fn hash<H: ::core::hash::Hasher>(&self, state: &mut H) {
+        fn hash<__H: ::core::hash::Hasher>(&self, state: &mut __H) {
             #body
         }
     })
@@ -750,10 +750,10 @@ fn build_hash_expr(
     if let Some(by) = &cmp.hash.by {
         return Ok(quote! {
             {
-                fn #fn_ident<H: ::core::hash::Hasher>(
+                fn #fn_ident<__H: ::core::hash::Hasher>(
                     this: &#ty,
-                    state: &mut H,
-                    hash: impl Fn(&#ty, &mut H)) {
+                    state: &mut __H,
+                    hash: impl ::core::ops::Fn(&#ty, &mut __H)) {
                     hash(this, state)
                 }
                 #fn_ident(&#this, state, #by)
@@ -1018,7 +1018,7 @@ impl HelperAttributeForCompareOp {
 
 fn replace_tokens(
     input: TokenStream,
-    is_match: &impl Fn(&TokenTree) -> bool,
+    is_match: &impl ::core::ops::Fn(&TokenTree) -> bool,
     replacer: &TokenStream,
 ) -> TokenStream {
     let mut ts = TokenStream::new();
@@ -1118,7 +1118,7 @@ fn build_to_index_fn(variants: &[VariantEntry]) -> TokenStream {
         let to_index = |this: &Self| -> usize {
             match this {
                 #(#arms)*
-                _ => unreachable!(),
+                _ => ::core::unreachable!(),
             }
         };
     }
@@ -1126,7 +1126,7 @@ fn build_to_index_fn(variants: &[VariantEntry]) -> TokenStream {
 
 fn build_eq_checker(this: TokenStream) -> TokenStream {
     quote_spanned!(this.span()=>{
-        fn _eq<T: Eq + ?Sized>(_this: &T) { }
+        fn _eq<T: ::core::cmp::Eq + ?::core::marker::Sized>(_this: &T) { }
         _eq(&(#this))
     })
 }
